@@ -31,6 +31,7 @@ type c04Case struct {
 	Latency       []int64 // response latency per hit (cycled), ns
 	ConsumerDelay int64   // the consumer sleeps this long after each result
 	Faults        []int   // these requests (by order of arrival at the transport) fail with a connection error
+	ClientTimeout int64   `json:",omitempty"` // > 0: the attacker's Timeout option (ns); pacer waits may be much longer than it
 }
 
 type c04Call struct {
@@ -102,7 +103,11 @@ func execC04(c c04Case) (out c04Outcome, err error) {
 	for _, f := range c.Faults {
 		tr.faults[f] = true
 	}
-	atk := vegeta.NewAttacker(vegeta.Client(&http.Client{Transport: tr}), vegeta.Workers(c.Workers), vegeta.MaxWorkers(c.MaxWorkers))
+	opts := []func(*vegeta.Attacker){vegeta.Client(&http.Client{Transport: tr}), vegeta.Workers(c.Workers), vegeta.MaxWorkers(c.MaxWorkers)}
+	if c.ClientTimeout > 0 {
+		opts = append(opts, vegeta.Timeout(time.Duration(c.ClientTimeout)))
+	}
+	atk := vegeta.NewAttacker(opts...)
 	t0 := time.Now()
 	results := atk.Attack(vegeta.NewStaticTargeter(vegeta.Target{Method: "GET", URL: "http://c04.test/"}), p, time.Duration(c.Duration), "c04")
 	var got []*vegeta.Result
@@ -291,6 +296,14 @@ func TestC04Loop(t *testing.T) {
 		}
 		if rapid.IntRange(0, 2).Draw(t, "faults") == 0 {
 			c.Faults = rapid.SliceOfN(rapid.IntRange(0, n), 1, 8).Draw(t, "faultidx")
+		}
+		if rapid.IntRange(0, 2).Draw(t, "clienttimeout") == 0 {
+			c.ClientTimeout = rapid.SampledFrom([]int64{1e6, 1e9, 30e9}).Draw(t, "ctimeout")
+			for i := range c.Latency { // (responses within the timeout: a timed-out request is a fault of another kind)
+				if c.Latency[i] >= c.ClientTimeout {
+					c.Latency[i] = c.ClientTimeout / 2
+				}
+			}
 		}
 		if rapid.IntRange(0, 2).Draw(t, "slowconsumer") == 0 {
 			c.ConsumerDelay = rapid.Int64Range(1, 2e9).Draw(t, "cdelay")
